@@ -15,7 +15,7 @@ import (
 )
 
 var Spec = engine.Spec{
-	ID: "C16", Run: Run, MapOrders: true, QuickBud: 4 * time.Minute, ThorBud: 25 * time.Minute,
+	ID: "C16", Run: Run, MapOrders: true, QuickBud: 4 * time.Minute, ThorBud: 45 * time.Minute,
 	Technique: "explicit enumeration of all small node lists x probe nodes over a hash/purl/kind alphabet, every permutation of the list, real lookups against filter references and GetMatchingNode against the documented rule",
 	Rule:      "case = (ordered list of node variants, probe variant); a node variant = hash map over 2 algorithms x {absent,'',h1,h2}, purl in {absent,p1,p2}, kind; all list permutations are run inside the case; distinct state = canonical list + probe",
 	Assume: []string{
